@@ -41,7 +41,6 @@ def tagsOnly : List (Site × List Cls) := [
   (Site.fn_tt3_read_from_ndef_service, [Cls.tag_TagCommandError, Cls.ValueError]),
   (Site.fn_tt3_write_without_encryption, [Cls.tag_TagCommandError, Cls.ValueError]),
   (Site.fn_tt3_write_to_ndef_service, [Cls.tag_TagCommandError, Cls.ValueError])]
-theorem tagsOnly_ok : checkOnly world table prog tagsOnly = true := by decide +kernel
 def tagsOnlyIO : List (Site × List Cls) := [
   (Site.fn_tt2_transceive, [Cls.tag_TagCommandError, Cls.RuntimeError, Cls.OSError]),
   (Site.fn_tt3_send_cmd_recv_rsp, [Cls.tag_TagCommandError, Cls.OSError]),
@@ -56,7 +55,73 @@ def tagsCan : List (Site × Cls) := [
   (Site.fn_tt4_dep_exchange_cmd, Cls.tag_tt4_Type4TagCommandError),
   (Site.fn_tt4_dep__exchange, Cls.clf_TimeoutError),
   (Site.fn_tt4_dep_exchange_presence, Cls.clf_TimeoutError)]
-theorem tagsCan_ok : checkCan world table prog tagsCan = true := by decide +kernel
+/-- the statements about `format` / `protect` / `authenticate` (section "format / protect / authenticate" below) -/
+def tagOpsOnly : List (Site × List Cls) := [
+  (Site.fn_tag_Tag_authenticate, [Cls.tag_TagCommandError, Cls.ValueError, Cls.RuntimeError, Cls.AssertionError]),
+  (Site.fn_tag_Tag_format, [Cls.tag_TagCommandError, Cls.ValueError, Cls.RuntimeError, Cls.AssertionError]),
+  (Site.fn_tag_Tag_protect, [Cls.tag_TagCommandError, Cls.ValueError, Cls.RuntimeError, Cls.AssertionError]),
+  (Site.fn_tt1_Type1Tag__protect, [Cls.tag_TagCommandError, Cls.ValueError, Cls.RuntimeError, Cls.AssertionError]),
+  (Site.fn_tt1_Type1Tag_protect, [Cls.tag_TagCommandError, Cls.ValueError, Cls.RuntimeError, Cls.AssertionError]),
+  (Site.fn_tt1_broadcom_Topaz__format, [Cls.tag_TagCommandError, Cls.ValueError, Cls.RuntimeError, Cls.AssertionError]),
+  (Site.fn_tt1_broadcom_Topaz__protect, [Cls.tag_TagCommandError, Cls.ValueError, Cls.RuntimeError, Cls.AssertionError]),
+  (Site.fn_tt1_broadcom_Topaz_format, [Cls.tag_TagCommandError, Cls.ValueError, Cls.RuntimeError, Cls.AssertionError]),
+  (Site.fn_tt1_broadcom_Topaz_protect, [Cls.tag_TagCommandError, Cls.ValueError, Cls.RuntimeError, Cls.AssertionError]),
+  (Site.fn_tt1_broadcom_Topaz512__format, [Cls.tag_TagCommandError, Cls.ValueError, Cls.RuntimeError, Cls.AssertionError]),
+  (Site.fn_tt1_broadcom_Topaz512__protect, [Cls.tag_TagCommandError, Cls.ValueError, Cls.RuntimeError, Cls.AssertionError]),
+  (Site.fn_tt1_broadcom_Topaz512_format, [Cls.tag_TagCommandError, Cls.ValueError, Cls.RuntimeError, Cls.AssertionError]),
+  (Site.fn_tt1_broadcom_Topaz512_protect, [Cls.tag_TagCommandError, Cls.ValueError, Cls.RuntimeError, Cls.AssertionError]),
+  (Site.fn_tt2_Type2Tag__format, [Cls.tag_TagCommandError, Cls.ValueError, Cls.RuntimeError, Cls.AssertionError]),
+  (Site.fn_tt2_Type2Tag__protect, [Cls.tag_TagCommandError, Cls.ValueError, Cls.RuntimeError, Cls.AssertionError]),
+  (Site.fn_tt2_Type2Tag_format, [Cls.tag_TagCommandError, Cls.ValueError, Cls.RuntimeError, Cls.AssertionError]),
+  (Site.fn_tt2_Type2Tag_protect, [Cls.tag_TagCommandError, Cls.ValueError, Cls.RuntimeError, Cls.AssertionError]),
+  (Site.fn_tt2_nxp_MifareUltralightC__authenticate, [Cls.tag_TagCommandError, Cls.ValueError, Cls.RuntimeError, Cls.AssertionError]),
+  (Site.fn_tt2_nxp_MifareUltralightC__protect, [Cls.tag_TagCommandError, Cls.ValueError, Cls.RuntimeError, Cls.AssertionError]),
+  (Site.fn_tt2_nxp_MifareUltralightC__protect_with_lockbits, [Cls.tag_TagCommandError, Cls.ValueError, Cls.RuntimeError, Cls.AssertionError]),
+  (Site.fn_tt2_nxp_MifareUltralightC__protect_with_password, [Cls.tag_TagCommandError, Cls.ValueError, Cls.RuntimeError, Cls.AssertionError]),
+  (Site.fn_tt2_nxp_MifareUltralightC_authenticate, [Cls.tag_TagCommandError, Cls.ValueError, Cls.RuntimeError, Cls.AssertionError]),
+  (Site.fn_tt2_nxp_MifareUltralightC_protect, [Cls.tag_TagCommandError, Cls.ValueError, Cls.RuntimeError, Cls.AssertionError]),
+  (Site.fn_tt2_nxp_NTAG203__format, [Cls.tag_TagCommandError, Cls.ValueError, Cls.RuntimeError, Cls.AssertionError]),
+  (Site.fn_tt2_nxp_NTAG203__protect, [Cls.tag_TagCommandError, Cls.ValueError, Cls.RuntimeError, Cls.AssertionError]),
+  (Site.fn_tt2_nxp_NTAG203_protect, [Cls.tag_TagCommandError, Cls.ValueError, Cls.RuntimeError, Cls.AssertionError]),
+  (Site.fn_tt2_nxp_NTAG210__format, [Cls.tag_TagCommandError, Cls.ValueError, Cls.RuntimeError, Cls.AssertionError]),
+  (Site.fn_tt2_nxp_NTAG212__format, [Cls.tag_TagCommandError, Cls.ValueError, Cls.RuntimeError, Cls.AssertionError]),
+  (Site.fn_tt2_nxp_NTAG213__format, [Cls.tag_TagCommandError, Cls.ValueError, Cls.RuntimeError, Cls.AssertionError]),
+  (Site.fn_tt2_nxp_NTAG215__format, [Cls.tag_TagCommandError, Cls.ValueError, Cls.RuntimeError, Cls.AssertionError]),
+  (Site.fn_tt2_nxp_NTAG216__format, [Cls.tag_TagCommandError, Cls.ValueError, Cls.RuntimeError, Cls.AssertionError]),
+  (Site.fn_tt2_nxp_NTAG21x__authenticate, [Cls.tag_TagCommandError, Cls.ValueError, Cls.RuntimeError, Cls.AssertionError]),
+  (Site.fn_tt2_nxp_NTAG21x__protect, [Cls.tag_TagCommandError, Cls.ValueError, Cls.RuntimeError, Cls.AssertionError]),
+  (Site.fn_tt2_nxp_NTAG21x__protect_with_lockbits, [Cls.tag_TagCommandError, Cls.ValueError, Cls.RuntimeError, Cls.AssertionError]),
+  (Site.fn_tt2_nxp_NTAG21x__protect_with_password, [Cls.tag_TagCommandError, Cls.ValueError, Cls.RuntimeError, Cls.AssertionError]),
+  (Site.fn_tt2_nxp_NTAG21x_authenticate, [Cls.tag_TagCommandError, Cls.ValueError, Cls.RuntimeError, Cls.AssertionError]),
+  (Site.fn_tt2_nxp_NTAG21x_protect, [Cls.tag_TagCommandError, Cls.ValueError, Cls.RuntimeError, Cls.AssertionError]),
+  (Site.fn_tt3_Type3Tag__format, [Cls.tag_TagCommandError, Cls.ValueError, Cls.RuntimeError, Cls.AssertionError]),
+  (Site.fn_tt3_Type3Tag_format, [Cls.tag_TagCommandError, Cls.ValueError, Cls.RuntimeError, Cls.AssertionError]),
+  (Site.fn_tt3_sony_FelicaLite__authenticate, [Cls.tag_TagCommandError, Cls.ValueError, Cls.RuntimeError, Cls.AssertionError]),
+  (Site.fn_tt3_sony_FelicaLite__format, [Cls.tag_TagCommandError, Cls.ValueError, Cls.RuntimeError, Cls.AssertionError]),
+  (Site.fn_tt3_sony_FelicaLite__protect, [Cls.tag_TagCommandError, Cls.ValueError, Cls.RuntimeError, Cls.AssertionError]),
+  (Site.fn_tt3_sony_FelicaLite_authenticate, [Cls.tag_TagCommandError, Cls.ValueError, Cls.RuntimeError, Cls.AssertionError]),
+  (Site.fn_tt3_sony_FelicaLite_format, [Cls.tag_TagCommandError, Cls.ValueError, Cls.RuntimeError, Cls.AssertionError]),
+  (Site.fn_tt3_sony_FelicaLite_protect, [Cls.tag_TagCommandError, Cls.ValueError, Cls.RuntimeError, Cls.AssertionError]),
+  (Site.fn_tt3_sony_FelicaLite_read_with_mac, [Cls.tag_TagCommandError, Cls.ValueError, Cls.RuntimeError, Cls.AssertionError]),
+  (Site.fn_tt3_sony_FelicaLite_read_without_mac, [Cls.tag_TagCommandError, Cls.ValueError, Cls.RuntimeError, Cls.AssertionError]),
+  (Site.fn_tt3_sony_FelicaLite_write_without_mac, [Cls.tag_TagCommandError, Cls.ValueError, Cls.RuntimeError, Cls.AssertionError]),
+  (Site.fn_tt3_sony_FelicaLiteS__protect, [Cls.tag_TagCommandError, Cls.ValueError, Cls.RuntimeError, Cls.AssertionError]),
+  (Site.fn_tt3_sony_FelicaLiteS_authenticate, [Cls.tag_TagCommandError, Cls.ValueError, Cls.RuntimeError, Cls.AssertionError]),
+  (Site.fn_tt3_sony_FelicaLiteS_protect, [Cls.tag_TagCommandError, Cls.ValueError, Cls.RuntimeError, Cls.AssertionError]),
+  (Site.fn_tt3_sony_FelicaLiteS_write_with_mac, [Cls.tag_TagCommandError, Cls.ValueError, Cls.RuntimeError, Cls.AssertionError]),
+  (Site.fn_tt3_sony_FelicaStandard__is_present, [Cls.tag_TagCommandError, Cls.ValueError, Cls.RuntimeError, Cls.AssertionError]),
+  (Site.fn_tt3_sony_FelicaStandard_request_response, [Cls.tag_TagCommandError, Cls.ValueError, Cls.RuntimeError, Cls.AssertionError]),
+  (Site.fn_tt3_sony_FelicaStandard_request_service, [Cls.tag_TagCommandError, Cls.ValueError, Cls.RuntimeError, Cls.AssertionError]),
+  (Site.fn_tt3_sony_FelicaStandard_request_system_code, [Cls.tag_TagCommandError, Cls.ValueError, Cls.RuntimeError, Cls.AssertionError]),
+  (Site.fn_tt3_sony_FelicaStandard_search_service_code, [Cls.tag_TagCommandError, Cls.ValueError, Cls.RuntimeError, Cls.AssertionError]),
+  (Site.fn_tt4_Type4Tag__format, [Cls.tag_TagCommandError, Cls.ValueError, Cls.RuntimeError, Cls.AssertionError]),
+  (Site.fn_tt4_Type4Tag_format, [Cls.tag_TagCommandError, Cls.ValueError, Cls.RuntimeError, Cls.AssertionError]),
+  (Site.fn_tt4_ndef_wipe, [Cls.tag_TagCommandError, Cls.ValueError, Cls.RuntimeError, Cls.AssertionError])]
+/-- all lists about the table `table`, checked with one evaluation of the summary table -/
+theorem tagsAll_ok : checkAll world table prog (tagsOnly ++ tagOpsOnly) [] tagsCan = true := by decide +kernel
+theorem tagsOnly_ok : checkOnly world table prog tagsOnly = true := (checkOnly_append.mp (checkAll_split tagsAll_ok).1).1
+theorem tagOpsOnly_ok : checkOnly world table prog tagOpsOnly = true := (checkOnly_append.mp (checkAll_split tagsAll_ok).1).2
+theorem tagsCan_ok : checkCan world table prog tagsCan = true := (checkAll_split tagsAll_ok).2.2
 
 
 /-- `Type1Tag.transceive`: `TagCommandError`, or the `RuntimeError` of the open finding
@@ -156,68 +221,6 @@ does not know which tag it is), so every entry lists the union: `TagCommandError
 (documented argument checks), `RuntimeError` (open finding of `transceive`; MAC mismatch of FeliCa Lite),
 `AssertionError` (`assert isinstance` of the Type 1 memory reader).  No raw `CommunicationError`. -/
 
-def tagOpsOnly : List (Site × List Cls) := [
-  (Site.fn_tag_Tag_authenticate, [Cls.tag_TagCommandError, Cls.ValueError, Cls.RuntimeError, Cls.AssertionError]),
-  (Site.fn_tag_Tag_format, [Cls.tag_TagCommandError, Cls.ValueError, Cls.RuntimeError, Cls.AssertionError]),
-  (Site.fn_tag_Tag_protect, [Cls.tag_TagCommandError, Cls.ValueError, Cls.RuntimeError, Cls.AssertionError]),
-  (Site.fn_tt1_Type1Tag__protect, [Cls.tag_TagCommandError, Cls.ValueError, Cls.RuntimeError, Cls.AssertionError]),
-  (Site.fn_tt1_Type1Tag_protect, [Cls.tag_TagCommandError, Cls.ValueError, Cls.RuntimeError, Cls.AssertionError]),
-  (Site.fn_tt1_broadcom_Topaz__format, [Cls.tag_TagCommandError, Cls.ValueError, Cls.RuntimeError, Cls.AssertionError]),
-  (Site.fn_tt1_broadcom_Topaz__protect, [Cls.tag_TagCommandError, Cls.ValueError, Cls.RuntimeError, Cls.AssertionError]),
-  (Site.fn_tt1_broadcom_Topaz_format, [Cls.tag_TagCommandError, Cls.ValueError, Cls.RuntimeError, Cls.AssertionError]),
-  (Site.fn_tt1_broadcom_Topaz_protect, [Cls.tag_TagCommandError, Cls.ValueError, Cls.RuntimeError, Cls.AssertionError]),
-  (Site.fn_tt1_broadcom_Topaz512__format, [Cls.tag_TagCommandError, Cls.ValueError, Cls.RuntimeError, Cls.AssertionError]),
-  (Site.fn_tt1_broadcom_Topaz512__protect, [Cls.tag_TagCommandError, Cls.ValueError, Cls.RuntimeError, Cls.AssertionError]),
-  (Site.fn_tt1_broadcom_Topaz512_format, [Cls.tag_TagCommandError, Cls.ValueError, Cls.RuntimeError, Cls.AssertionError]),
-  (Site.fn_tt1_broadcom_Topaz512_protect, [Cls.tag_TagCommandError, Cls.ValueError, Cls.RuntimeError, Cls.AssertionError]),
-  (Site.fn_tt2_Type2Tag__format, [Cls.tag_TagCommandError, Cls.ValueError, Cls.RuntimeError, Cls.AssertionError]),
-  (Site.fn_tt2_Type2Tag__protect, [Cls.tag_TagCommandError, Cls.ValueError, Cls.RuntimeError, Cls.AssertionError]),
-  (Site.fn_tt2_Type2Tag_format, [Cls.tag_TagCommandError, Cls.ValueError, Cls.RuntimeError, Cls.AssertionError]),
-  (Site.fn_tt2_Type2Tag_protect, [Cls.tag_TagCommandError, Cls.ValueError, Cls.RuntimeError, Cls.AssertionError]),
-  (Site.fn_tt2_nxp_MifareUltralightC__authenticate, [Cls.tag_TagCommandError, Cls.ValueError, Cls.RuntimeError, Cls.AssertionError]),
-  (Site.fn_tt2_nxp_MifareUltralightC__protect, [Cls.tag_TagCommandError, Cls.ValueError, Cls.RuntimeError, Cls.AssertionError]),
-  (Site.fn_tt2_nxp_MifareUltralightC__protect_with_lockbits, [Cls.tag_TagCommandError, Cls.ValueError, Cls.RuntimeError, Cls.AssertionError]),
-  (Site.fn_tt2_nxp_MifareUltralightC__protect_with_password, [Cls.tag_TagCommandError, Cls.ValueError, Cls.RuntimeError, Cls.AssertionError]),
-  (Site.fn_tt2_nxp_MifareUltralightC_authenticate, [Cls.tag_TagCommandError, Cls.ValueError, Cls.RuntimeError, Cls.AssertionError]),
-  (Site.fn_tt2_nxp_MifareUltralightC_protect, [Cls.tag_TagCommandError, Cls.ValueError, Cls.RuntimeError, Cls.AssertionError]),
-  (Site.fn_tt2_nxp_NTAG203__format, [Cls.tag_TagCommandError, Cls.ValueError, Cls.RuntimeError, Cls.AssertionError]),
-  (Site.fn_tt2_nxp_NTAG203__protect, [Cls.tag_TagCommandError, Cls.ValueError, Cls.RuntimeError, Cls.AssertionError]),
-  (Site.fn_tt2_nxp_NTAG203_protect, [Cls.tag_TagCommandError, Cls.ValueError, Cls.RuntimeError, Cls.AssertionError]),
-  (Site.fn_tt2_nxp_NTAG210__format, [Cls.tag_TagCommandError, Cls.ValueError, Cls.RuntimeError, Cls.AssertionError]),
-  (Site.fn_tt2_nxp_NTAG212__format, [Cls.tag_TagCommandError, Cls.ValueError, Cls.RuntimeError, Cls.AssertionError]),
-  (Site.fn_tt2_nxp_NTAG213__format, [Cls.tag_TagCommandError, Cls.ValueError, Cls.RuntimeError, Cls.AssertionError]),
-  (Site.fn_tt2_nxp_NTAG215__format, [Cls.tag_TagCommandError, Cls.ValueError, Cls.RuntimeError, Cls.AssertionError]),
-  (Site.fn_tt2_nxp_NTAG216__format, [Cls.tag_TagCommandError, Cls.ValueError, Cls.RuntimeError, Cls.AssertionError]),
-  (Site.fn_tt2_nxp_NTAG21x__authenticate, [Cls.tag_TagCommandError, Cls.ValueError, Cls.RuntimeError, Cls.AssertionError]),
-  (Site.fn_tt2_nxp_NTAG21x__protect, [Cls.tag_TagCommandError, Cls.ValueError, Cls.RuntimeError, Cls.AssertionError]),
-  (Site.fn_tt2_nxp_NTAG21x__protect_with_lockbits, [Cls.tag_TagCommandError, Cls.ValueError, Cls.RuntimeError, Cls.AssertionError]),
-  (Site.fn_tt2_nxp_NTAG21x__protect_with_password, [Cls.tag_TagCommandError, Cls.ValueError, Cls.RuntimeError, Cls.AssertionError]),
-  (Site.fn_tt2_nxp_NTAG21x_authenticate, [Cls.tag_TagCommandError, Cls.ValueError, Cls.RuntimeError, Cls.AssertionError]),
-  (Site.fn_tt2_nxp_NTAG21x_protect, [Cls.tag_TagCommandError, Cls.ValueError, Cls.RuntimeError, Cls.AssertionError]),
-  (Site.fn_tt3_Type3Tag__format, [Cls.tag_TagCommandError, Cls.ValueError, Cls.RuntimeError, Cls.AssertionError]),
-  (Site.fn_tt3_Type3Tag_format, [Cls.tag_TagCommandError, Cls.ValueError, Cls.RuntimeError, Cls.AssertionError]),
-  (Site.fn_tt3_sony_FelicaLite__authenticate, [Cls.tag_TagCommandError, Cls.ValueError, Cls.RuntimeError, Cls.AssertionError]),
-  (Site.fn_tt3_sony_FelicaLite__format, [Cls.tag_TagCommandError, Cls.ValueError, Cls.RuntimeError, Cls.AssertionError]),
-  (Site.fn_tt3_sony_FelicaLite__protect, [Cls.tag_TagCommandError, Cls.ValueError, Cls.RuntimeError, Cls.AssertionError]),
-  (Site.fn_tt3_sony_FelicaLite_authenticate, [Cls.tag_TagCommandError, Cls.ValueError, Cls.RuntimeError, Cls.AssertionError]),
-  (Site.fn_tt3_sony_FelicaLite_format, [Cls.tag_TagCommandError, Cls.ValueError, Cls.RuntimeError, Cls.AssertionError]),
-  (Site.fn_tt3_sony_FelicaLite_protect, [Cls.tag_TagCommandError, Cls.ValueError, Cls.RuntimeError, Cls.AssertionError]),
-  (Site.fn_tt3_sony_FelicaLite_read_with_mac, [Cls.tag_TagCommandError, Cls.ValueError, Cls.RuntimeError, Cls.AssertionError]),
-  (Site.fn_tt3_sony_FelicaLite_read_without_mac, [Cls.tag_TagCommandError, Cls.ValueError, Cls.RuntimeError, Cls.AssertionError]),
-  (Site.fn_tt3_sony_FelicaLite_write_without_mac, [Cls.tag_TagCommandError, Cls.ValueError, Cls.RuntimeError, Cls.AssertionError]),
-  (Site.fn_tt3_sony_FelicaLiteS__protect, [Cls.tag_TagCommandError, Cls.ValueError, Cls.RuntimeError, Cls.AssertionError]),
-  (Site.fn_tt3_sony_FelicaLiteS_authenticate, [Cls.tag_TagCommandError, Cls.ValueError, Cls.RuntimeError, Cls.AssertionError]),
-  (Site.fn_tt3_sony_FelicaLiteS_protect, [Cls.tag_TagCommandError, Cls.ValueError, Cls.RuntimeError, Cls.AssertionError]),
-  (Site.fn_tt3_sony_FelicaLiteS_write_with_mac, [Cls.tag_TagCommandError, Cls.ValueError, Cls.RuntimeError, Cls.AssertionError]),
-  (Site.fn_tt3_sony_FelicaStandard__is_present, [Cls.tag_TagCommandError, Cls.ValueError, Cls.RuntimeError, Cls.AssertionError]),
-  (Site.fn_tt3_sony_FelicaStandard_request_response, [Cls.tag_TagCommandError, Cls.ValueError, Cls.RuntimeError, Cls.AssertionError]),
-  (Site.fn_tt3_sony_FelicaStandard_request_service, [Cls.tag_TagCommandError, Cls.ValueError, Cls.RuntimeError, Cls.AssertionError]),
-  (Site.fn_tt3_sony_FelicaStandard_request_system_code, [Cls.tag_TagCommandError, Cls.ValueError, Cls.RuntimeError, Cls.AssertionError]),
-  (Site.fn_tt3_sony_FelicaStandard_search_service_code, [Cls.tag_TagCommandError, Cls.ValueError, Cls.RuntimeError, Cls.AssertionError]),
-  (Site.fn_tt4_Type4Tag__format, [Cls.tag_TagCommandError, Cls.ValueError, Cls.RuntimeError, Cls.AssertionError]),
-  (Site.fn_tt4_Type4Tag_format, [Cls.tag_TagCommandError, Cls.ValueError, Cls.RuntimeError, Cls.AssertionError]),
-  (Site.fn_tt4_ndef_wipe, [Cls.tag_TagCommandError, Cls.ValueError, Cls.RuntimeError, Cls.AssertionError])]
-theorem tagOpsOnly_ok : checkOnly world table prog tagOpsOnly = true := by decide +kernel
 theorem tag_operations_escape : ∀ fa ∈ tagOpsOnly, Only fa.1 fa.2 := only_all tagOpsOnly_ok
 
 end NfcVerif.ExcFlowProps
